@@ -89,7 +89,18 @@ func (e *Engine) newFuncCtx(ref *FuncRef, con *Contract, prop string) *FuncCtx {
 }
 
 // VerifyFunc generates all obligations of one function under contract for one property.
-func (e *Engine) VerifyFunc(key string, prop string) (*FuncResult, error) {
+func (e *Engine) VerifyFunc(key string, prop string) (res *FuncResult, err error) {
+	defer func() {
+		// fail closed on engine errors: the caller turns the error into an undischarged obligation
+		if r := recover(); r != nil {
+			res = nil
+			err = fmt.Errorf("fovc internal error while generating the obligations of %s: %v", key, r)
+		}
+	}()
+	return e.verifyFunc(key, prop)
+}
+
+func (e *Engine) verifyFunc(key string, prop string) (*FuncResult, error) {
 	con := e.CS.Funcs[key]
 	if con == nil {
 		return nil, fmt.Errorf("no contract for %s", key)
@@ -104,12 +115,6 @@ func (e *Engine) VerifyFunc(key string, prop string) (*FuncResult, error) {
 	}
 	fc := e.newFuncCtx(ref, con, prop)
 	res.Mode = "slices=" + fc.SliceMode + " strings=" + fc.StrMode
-	defer func() {
-		// fail closed on engine panics
-		if r := recover(); r != nil {
-			panic(fmt.Sprintf("fovc: internal error while verifying %s: %v", key, r))
-		}
-	}()
 	st := &St{vars: map[types.Object]Term{}, ghost: map[string]Term{}, heaps: map[string]Term{}, mdom: map[string]Term{}, mval: map[string]Term{},
 		trn: map[string]Term{}, tra: map[string][]Term{}, glob: map[string]Term{}}
 	fc.declare("next0", SInt)
